@@ -120,9 +120,9 @@ package ledger
 //@   property C07 C08 C13 C29 C31
 //@   requires !closed[store]
 //@   modifies writes, logs, fnRuns
-//@   ensures forall h Store :: {writes[h]} h != store ==> writes[h] == old(writes)[h]
-//@   ensures forall h Store :: {logs[h]} h != store ==> logs[h] == old(logs)[h]
-//@   ensures forall h Store :: {fnRuns[h]} h != store ==> fnRuns[h] == old(fnRuns)[h]
+//@   ensures forall h Store :: {writes[h]} {old(writes)[h]} h != store ==> writes[h] == old(writes)[h]
+//@   ensures forall h Store :: {logs[h]} {old(logs)[h]} h != store ==> logs[h] == old(logs)[h]
+//@   ensures forall h Store :: {fnRuns[h]} {old(fnRuns)[h]} h != store ==> fnRuns[h] == old(fnRuns)[h]
 //@   ensures err == nil ==> fnRuns[store] == old(fnRuns)[store] + 1 && logs[store] == old(logs)[store] + 1
 //@   ensures err != nil ==> logs[store] == old(logs)[store] && fnRuns[store] <= old(fnRuns)[store] + 1
 //@   ensures err == nil ==> log != nil && output != nil
@@ -131,7 +131,7 @@ package ledger
 //@   fnparam fn(c, sqlTX, schema, params) (out, ferr):
 //@     modifies writes, fnRuns
 //@     ensures fnRuns == store(old(fnRuns), sqlTX, old(fnRuns)[sqlTX] + 1)
-//@     ensures forall h Store :: {writes[h]} h != sqlTX ==> writes[h] == old(writes)[h]
+//@     ensures forall h Store :: {writes[h]} {old(writes)[h]} h != sqlTX ==> writes[h] == old(writes)[h]
 //@     ensures ferr == nil ==> out != nil
 
 //@ func (lp *logProcessor[INPUT, OUTPUT]) runTx(ctx context.Context, store Store, parameters Parameters[INPUT], fn func(ctx context.Context, sqlTX Store, schema *ledger.Schema, parameters Parameters[INPUT]) (*OUTPUT, error)) (log *ledger.Log, output *OUTPUT, err error)
@@ -139,9 +139,9 @@ package ledger
 //@   requires allocated[store] && !closed[store]
 //@   modifies allocated, open, closed, nBegin, nClosed, nCommit, committedLogs, committedFnRuns, writes, logs, fnRuns
 //@   ensures nBegin - old(nBegin) == nClosed - old(nClosed)
-//@   ensures forall h Store :: {writes[h]} old(allocated)[h] ==> writes[h] == old(writes)[h]
-//@   ensures forall h Store :: {closed[h]} old(allocated)[h] ==> closed[h] == old(closed)[h]
-//@   ensures forall h Store :: {open[h]} old(allocated)[h] ==> open[h] == old(open)[h]
+//@   ensures forall h Store :: {writes[h]} {old(writes)[h]} old(allocated)[h] ==> writes[h] == old(writes)[h]
+//@   ensures forall h Store :: {closed[h]} {old(closed)[h]} old(allocated)[h] ==> closed[h] == old(closed)[h]
+//@   ensures forall h Store :: {open[h]} {old(open)[h]} old(allocated)[h] ==> open[h] == old(open)[h]
 //@   ensures forall h Store :: {allocated[h]} old(allocated)[h] ==> allocated[h]
 //@   ensures err != nil || parameters.DryRun ==> nCommit == old(nCommit) && committedLogs == old(committedLogs) && committedFnRuns == old(committedFnRuns)
 //@   ensures err == nil && !parameters.DryRun ==> nCommit == old(nCommit) + 1 && committedLogs == old(committedLogs) + 1 && committedFnRuns == old(committedFnRuns) + 1
@@ -149,7 +149,7 @@ package ledger
 //@   fnparam fn(c, sqlTX, schema, params) (out, ferr):
 //@     modifies writes, fnRuns
 //@     ensures fnRuns == store(old(fnRuns), sqlTX, old(fnRuns)[sqlTX] + 1)
-//@     ensures forall h Store :: {writes[h]} h != sqlTX ==> writes[h] == old(writes)[h]
+//@     ensures forall h Store :: {writes[h]} {old(writes)[h]} h != sqlTX ==> writes[h] == old(writes)[h]
 //@     ensures ferr == nil ==> out != nil
 
 //@ func (lp *logProcessor[INPUT, OUTPUT]) forgeLogRetry(ctx context.Context, store Store, parameters Parameters[INPUT], fn func(ctx context.Context, store Store, schema *ledger.Schema, parameters Parameters[INPUT]) (*OUTPUT, error)) (log *ledger.Log, output *OUTPUT, hit bool, err error)
@@ -157,9 +157,9 @@ package ledger
 //@   requires allocated[store] && !closed[store]
 //@   modifies allocated, open, closed, nBegin, nClosed, nCommit, committedLogs, committedFnRuns, writes, logs, fnRuns
 //@   ensures nBegin - old(nBegin) == nClosed - old(nClosed)
-//@   ensures forall h Store :: {writes[h]} old(allocated)[h] ==> writes[h] == old(writes)[h]
-//@   ensures forall h Store :: {closed[h]} old(allocated)[h] ==> closed[h] == old(closed)[h]
-//@   ensures forall h Store :: {open[h]} old(allocated)[h] ==> open[h] == old(open)[h]
+//@   ensures forall h Store :: {writes[h]} {old(writes)[h]} old(allocated)[h] ==> writes[h] == old(writes)[h]
+//@   ensures forall h Store :: {closed[h]} {old(closed)[h]} old(allocated)[h] ==> closed[h] == old(closed)[h]
+//@   ensures forall h Store :: {open[h]} {old(open)[h]} old(allocated)[h] ==> open[h] == old(open)[h]
 //@   ensures forall h Store :: {allocated[h]} old(allocated)[h] ==> allocated[h]
 //@   ensures err != nil || parameters.DryRun || hit ==> nCommit == old(nCommit) && committedLogs == old(committedLogs) && committedFnRuns == old(committedFnRuns)
 //@   ensures err == nil && !parameters.DryRun && !hit ==> nCommit == old(nCommit) + 1 && committedLogs == old(committedLogs) + 1 && committedFnRuns == old(committedFnRuns) + 1
@@ -169,14 +169,14 @@ package ledger
 //@   loop 1:
 //@     invariant nBegin - old(nBegin) == nClosed - old(nClosed)
 //@     invariant nCommit == old(nCommit) && committedLogs == old(committedLogs) && committedFnRuns == old(committedFnRuns)
-//@     invariant forall h Store :: {writes[h]} old(allocated)[h] ==> writes[h] == old(writes)[h]
-//@     invariant forall h Store :: {open[h]} old(allocated)[h] ==> open[h] == old(open)[h]
-//@     invariant forall h Store :: {closed[h]} old(allocated)[h] ==> closed[h] == old(closed)[h]
+//@     invariant forall h Store :: {writes[h]} {old(writes)[h]} old(allocated)[h] ==> writes[h] == old(writes)[h]
+//@     invariant forall h Store :: {open[h]} {old(open)[h]} old(allocated)[h] ==> open[h] == old(open)[h]
+//@     invariant forall h Store :: {closed[h]} {old(closed)[h]} old(allocated)[h] ==> closed[h] == old(closed)[h]
 //@     invariant forall h Store :: {allocated[h]} old(allocated)[h] ==> allocated[h]
 //@   fnparam fn(c, sqlTX, schema, params) (out, ferr):
 //@     modifies writes, fnRuns
 //@     ensures fnRuns == store(old(fnRuns), sqlTX, old(fnRuns)[sqlTX] + 1)
-//@     ensures forall h Store :: {writes[h]} h != sqlTX ==> writes[h] == old(writes)[h]
+//@     ensures forall h Store :: {writes[h]} {old(writes)[h]} h != sqlTX ==> writes[h] == old(writes)[h]
 //@     ensures ferr == nil ==> out != nil
 
 //@ func (lp *logProcessor[INPUT, OUTPUT]) forgeLog(ctx context.Context, store Store, parameters Parameters[INPUT], fn func(ctx context.Context, store Store, schema *ledger.Schema, parameters Parameters[INPUT]) (*OUTPUT, error)) (log *ledger.Log, output *OUTPUT, hit bool, err error)
@@ -184,9 +184,9 @@ package ledger
 //@   requires allocated[store] && !closed[store]
 //@   modifies allocated, open, closed, nBegin, nClosed, nCommit, committedLogs, committedFnRuns, writes, logs, fnRuns
 //@   ensures nBegin - old(nBegin) == nClosed - old(nClosed)
-//@   ensures forall h Store :: {writes[h]} old(allocated)[h] ==> writes[h] == old(writes)[h]
-//@   ensures forall h Store :: {closed[h]} old(allocated)[h] ==> closed[h] == old(closed)[h]
-//@   ensures forall h Store :: {open[h]} old(allocated)[h] ==> open[h] == old(open)[h]
+//@   ensures forall h Store :: {writes[h]} {old(writes)[h]} old(allocated)[h] ==> writes[h] == old(writes)[h]
+//@   ensures forall h Store :: {closed[h]} {old(closed)[h]} old(allocated)[h] ==> closed[h] == old(closed)[h]
+//@   ensures forall h Store :: {open[h]} {old(open)[h]} old(allocated)[h] ==> open[h] == old(open)[h]
 //@   ensures err != nil || parameters.DryRun || hit ==> nCommit == old(nCommit) && committedLogs == old(committedLogs) && committedFnRuns == old(committedFnRuns)
 //@   ensures err == nil && !parameters.DryRun && !hit ==> nCommit == old(nCommit) + 1 && committedLogs == old(committedLogs) + 1 && committedFnRuns == old(committedFnRuns) + 1
 //@   ensures err == nil ==> log != nil && output != nil
@@ -194,7 +194,7 @@ package ledger
 //@   fnparam fn(c, sqlTX, schema, params) (out, ferr):
 //@     modifies writes, fnRuns
 //@     ensures fnRuns == store(old(fnRuns), sqlTX, old(fnRuns)[sqlTX] + 1)
-//@     ensures forall h Store :: {writes[h]} h != sqlTX ==> writes[h] == old(writes)[h]
+//@     ensures forall h Store :: {writes[h]} {old(writes)[h]} h != sqlTX ==> writes[h] == old(writes)[h]
 //@     ensures ferr == nil ==> out != nil
 
 // ---- controller_default.go: the functions run inside forgeLog (they must write only through the store they are given) ----
@@ -203,12 +203,12 @@ package ledger
 //@   property C07
 //@   requires tx != nil
 //@   modifies writes
-//@   ensures forall h Store :: {writes[h]} h != store ==> writes[h] == old(writes)[h]
+//@   ensures forall h Store :: {writes[h]} {old(writes)[h]} h != store ==> writes[h] == old(writes)[h]
 
 //@ func (ctrl *DefaultController) createTransaction(ctx context.Context, store Store, schema *ledger.Schema, parameters Parameters[CreateTransaction]) (r *ledger.CreatedTransaction, err error)
 //@   property C07
 //@   modifies writes
-//@   ensures forall h Store :: {writes[h]} h != store ==> writes[h] == old(writes)[h]
+//@   ensures forall h Store :: {writes[h]} {old(writes)[h]} h != store ==> writes[h] == old(writes)[h]
 //@   ensures err == nil ==> r != nil
 //@   loop 3:
 //@     invariant accountMetadata[account] != nil
@@ -218,7 +218,7 @@ package ledger
 //@   modifies writes, lastBalances, lastRevertModified
 //@   ensures !lastRevertModified ==> err != nil && writes[store] == old(writes)[store] + 1
 //@   ensures err == nil ==> has(r.RevertTransaction.Metadata, revertsKey()) && r.RevertTransaction.Metadata[revertsKey()] == str(deref(r.RevertedTransaction.ID))
-//@   ensures forall h Store :: {writes[h]} h != store ==> writes[h] == old(writes)[h]
+//@   ensures forall h Store :: {writes[h]} {old(writes)[h]} h != store ==> writes[h] == old(writes)[h]
 //@   ensures err == nil ==> r != nil
 //@   ensures err == nil ==> isReverse(r.RevertTransaction.Postings, r.RevertedTransaction.Postings)
 //@   ensures err == nil ==> r.RevertTransaction.Timestamp == (parameters.Input.AtEffectiveDate ? r.RevertedTransaction.Timestamp : deref(r.RevertedTransaction.RevertedAt))
@@ -248,25 +248,25 @@ package ledger
 //@ func (ctrl *DefaultController) saveTransactionMetadata(ctx context.Context, store Store, _schema *ledger.Schema, parameters Parameters[SaveTransactionMetadata]) (r *ledger.SavedMetadata, err error)
 //@   property C07
 //@   modifies writes
-//@   ensures forall h Store :: {writes[h]} h != store ==> writes[h] == old(writes)[h]
+//@   ensures forall h Store :: {writes[h]} {old(writes)[h]} h != store ==> writes[h] == old(writes)[h]
 //@   ensures err == nil ==> r != nil
 
 //@ func (ctrl *DefaultController) saveAccountMetadata(ctx context.Context, store Store, schema *ledger.Schema, parameters Parameters[SaveAccountMetadata]) (r *ledger.SavedMetadata, err error)
 //@   property C07
 //@   modifies writes
-//@   ensures forall h Store :: {writes[h]} h != store ==> writes[h] == old(writes)[h]
+//@   ensures forall h Store :: {writes[h]} {old(writes)[h]} h != store ==> writes[h] == old(writes)[h]
 //@   ensures err == nil ==> r != nil
 
 //@ func (ctrl *DefaultController) deleteTransactionMetadata(ctx context.Context, store Store, _schema *ledger.Schema, parameters Parameters[DeleteTransactionMetadata]) (r *ledger.DeletedMetadata, err error)
 //@   property C07
 //@   modifies writes
-//@   ensures forall h Store :: {writes[h]} h != store ==> writes[h] == old(writes)[h]
+//@   ensures forall h Store :: {writes[h]} {old(writes)[h]} h != store ==> writes[h] == old(writes)[h]
 //@   ensures err == nil ==> r != nil
 
 //@ func (ctrl *DefaultController) deleteAccountMetadata(ctx context.Context, store Store, schema *ledger.Schema, parameters Parameters[DeleteAccountMetadata]) (r *ledger.DeletedMetadata, err error)
 //@   property C07
 //@   modifies writes
-//@   ensures forall h Store :: {writes[h]} h != store ==> writes[h] == old(writes)[h]
+//@   ensures forall h Store :: {writes[h]} {old(writes)[h]} h != store ==> writes[h] == old(writes)[h]
 //@   ensures err == nil ==> r != nil
 
 //@ assumed func (r NumscriptRuntime) Execute(ctx context.Context, store Store, vars map[string]string) (res *NumscriptExecutionResult, err error)
@@ -296,55 +296,56 @@ package ledger
 
 //@ func (c *ControllerWithEvents) CreateTransaction(ctx context.Context, parameters Parameters[CreateTransaction]) (log *ledger.Log, ret *ledger.CreatedTransaction, hit bool, err error)
 //@   property C31
-//@   modifies c, published
+//@   modifies c, published, ctrlWrites, lastWriteCtrl, lastIK, lastSchemaVersion, lastDryRun
 //@   ensures err != nil || parameters.DryRun ==> published == old(published) && len(c.atCommit) == len(old(c.atCommit))
 //@   ensures err == nil && !parameters.DryRun ==> published == old(published) + (old(c.hasTx) ? 0 : 1)
 //@   ensures c.hasTx == old(c.hasTx)
 
 //@ func (c *ControllerWithEvents) RevertTransaction(ctx context.Context, parameters Parameters[RevertTransaction]) (log *ledger.Log, ret *ledger.RevertedTransaction, hit bool, err error)
 //@   property C31
-//@   modifies c, published
+//@   modifies c, published, ctrlWrites, lastWriteCtrl, lastIK, lastSchemaVersion, lastDryRun
 //@   ensures err != nil || parameters.DryRun ==> published == old(published) && len(c.atCommit) == len(old(c.atCommit))
 //@   ensures err == nil && !parameters.DryRun ==> published == old(published) + (old(c.hasTx) ? 0 : 1)
 //@   ensures c.hasTx == old(c.hasTx)
 
 //@ func (c *ControllerWithEvents) SaveTransactionMetadata(ctx context.Context, parameters Parameters[SaveTransactionMetadata]) (log *ledger.Log, hit bool, err error)
 //@   property C31
-//@   modifies c, published
+//@   modifies c, published, ctrlWrites, lastWriteCtrl, lastIK, lastSchemaVersion, lastDryRun
 //@   ensures err != nil || parameters.DryRun ==> published == old(published) && len(c.atCommit) == len(old(c.atCommit))
 //@   ensures err == nil && !parameters.DryRun ==> published == old(published) + (old(c.hasTx) ? 0 : 1)
 //@   ensures c.hasTx == old(c.hasTx)
 
 //@ func (c *ControllerWithEvents) SaveAccountMetadata(ctx context.Context, parameters Parameters[SaveAccountMetadata]) (log *ledger.Log, hit bool, err error)
 //@   property C31
-//@   modifies c, published
+//@   modifies c, published, ctrlWrites, lastWriteCtrl, lastIK, lastSchemaVersion, lastDryRun
 //@   ensures err != nil || parameters.DryRun ==> published == old(published) && len(c.atCommit) == len(old(c.atCommit))
 //@   ensures err == nil && !parameters.DryRun ==> published == old(published) + (old(c.hasTx) ? 0 : 1)
 //@   ensures c.hasTx == old(c.hasTx)
 
 //@ func (c *ControllerWithEvents) DeleteTransactionMetadata(ctx context.Context, parameters Parameters[DeleteTransactionMetadata]) (log *ledger.Log, hit bool, err error)
 //@   property C31
-//@   modifies c, published
+//@   modifies c, published, ctrlWrites, lastWriteCtrl, lastIK, lastSchemaVersion, lastDryRun
 //@   ensures err != nil || parameters.DryRun ==> published == old(published) && len(c.atCommit) == len(old(c.atCommit))
 //@   ensures err == nil && !parameters.DryRun ==> published == old(published) + (old(c.hasTx) ? 0 : 1)
 //@   ensures c.hasTx == old(c.hasTx)
 
 //@ func (c *ControllerWithEvents) DeleteAccountMetadata(ctx context.Context, parameters Parameters[DeleteAccountMetadata]) (log *ledger.Log, hit bool, err error)
 //@   property C31
-//@   modifies c, published
+//@   modifies c, published, ctrlWrites, lastWriteCtrl, lastIK, lastSchemaVersion, lastDryRun
 //@   ensures err != nil || parameters.DryRun ==> published == old(published) && len(c.atCommit) == len(old(c.atCommit))
 //@   ensures err == nil && !parameters.DryRun ==> published == old(published) + (old(c.hasTx) ? 0 : 1)
 //@   ensures c.hasTx == old(c.hasTx)
 
 //@ func (c *ControllerWithEvents) InsertSchema(ctx context.Context, parameters Parameters[InsertSchema]) (log *ledger.Log, ret *ledger.InsertedSchema, hit bool, err error)
 //@   property C31
-//@   modifies c, published
+//@   modifies c, published, ctrlWrites, lastWriteCtrl, lastIK, lastSchemaVersion, lastDryRun
 //@   ensures err != nil || parameters.DryRun ==> published == old(published) && len(c.atCommit) == len(old(c.atCommit))
 //@   ensures err == nil && !parameters.DryRun ==> published == old(published) + (old(c.hasTx) ? 0 : 1)
 //@   ensures c.hasTx == old(c.hasTx)
 
 //@ func (c *ControllerWithEvents) BeginTX(ctx context.Context, options *sql.TxOptions) (r Controller, tx *bun.Tx, err error)
 //@   property C31
+//@   modifies nCtrlBegin, lastTxCtrl
 //@   ensures published == old(published)
 //@   ensures err == nil ==> r.(*ControllerWithEvents) != nil && r.(*ControllerWithEvents).hasTx && len(r.(*ControllerWithEvents).atCommit) == 0
 
@@ -369,7 +370,7 @@ package ledger
 
 //@ func (c *ControllerWithEvents) Rollback(ctx context.Context) (err error)
 //@   property C31
-//@   modifies c
+//@   modifies c, nCtrlRollback
 //@   ensures len(c.atCommit) == 0 && published == old(published) && c.hasTx == old(c.hasTx)
 
 // ---- assumed contracts of the Controller interface, as used by internal/api/bulking (C32) ---------------
